@@ -6,7 +6,7 @@ from . import common as K
 
 LEVEL = "other"
 EXPLANATION = (
-    "Structural rules on the socket layer: (S-ORDER) on the write path (Socket::send, every Session::send of the "
+    "Structural rules on the socket layer: (S-RUNTIME) no call of a tokio API whose behaviour depends on the runtime flavour or worker count (block_in_place, block_on, spawn_local, ...) outside the program's entry point; (S-ORDER) on the write path (Socket::send, every Session::send of the "
     "socket/TCP layers) the hand-off of a write — the call to the next Session::send or the channel send that carries "
     "Instruction::Outgoing to the TCB task — never sits inside a closure/async block handed to tokio::spawn, and the TCB "
     "task consumes instructions from a FIFO channel: enqueue order = program order for every runtime flavour; "
@@ -47,8 +47,42 @@ def _handoffs(body):
     return out
 
 
+FLAVOUR_APIS = {
+    "block_in_place": "tokio::task::block_in_place panics on a current_thread runtime",
+    "block_on": "block_on inside the simulation panics (a runtime cannot be entered from within a runtime)",
+    "spawn_local": "spawn_local needs a LocalSet: it panics on a plain runtime of either flavour",
+    "run_until": "LocalSet::run_until pins the tasks to one thread: behaviour depends on how the simulation was started",
+    "runtime_flavor": "the code branches on the runtime flavour",
+    "num_workers": "the code branches on the number of worker threads",
+}
+
+
+def s_runtime(ctx):
+    """S-RUNTIME (who-may-call, expected count zero): nothing in the library crate or in the applications calls a tokio
+    API whose behaviour depends on the runtime flavour or worker count; the only block_on is the program's entry point."""
+    prog = ctx.prog()
+    n = 0
+    for b in prog.bodies.values():
+        for bb, t in K.calls(b):
+            k = F.callee_key(t) or ""
+            if not k.startswith("tokio::"):
+                continue
+            n += 1
+            name = k.rsplit("::", 1)[-1]
+            if name.startswith("{closure"):
+                continue
+            if name in FLAVOUR_APIS:
+                ok = name == "block_on" and b.key == "elvis::main"
+                (ctx.ok if ok else ctx.bad)("S-RUNTIME", "S-RUNTIME:%s@%s" % (name, b.key), F.call_loc(t),
+                    "the program's entry point starts the runtime" if ok else
+                    "%s calls %s: %s, so what a socket delivers depends on the runtime the simulation runs on" % (b.pretty, K.short(k), FLAVOUR_APIS[name]))
+    ctx.require(n >= 50, "S-RUNTIME: only %d tokio call sites seen (facts incomplete)" % n)
+    ctx.ok("S-RUNTIME", "S-RUNTIME:scan", None, "%d tokio call sites in both crates, none flavour dependent outside main" % n)
+
+
 def run(ctx):
     prog = ctx.prog()
+    s_runtime(ctx)
     # ---------------------------------------------------------------- S-ORDER
     writers = [prog.method("Socket", "send")]
     for b in prog.trait_impl_bodies(K.SESSION_SEND):
